@@ -1063,8 +1063,32 @@ def run_nextdrive(pr):
         except Exception as e:
             rec['sends'].append({'lat': lat, 'es': es, 'tree': None, 'raised': type(e).__name__})
 
+    obs['tickers'] = [[] for _ in pr.get('tickers', [])]
+    tdone = {'n': 0}
+
+    def ticker(j, spec):
+        # a routine PLAYED ON A CLOCK while the main thread is stepping another routine by hand
+        def tbody(inval):
+            _, clk_ = inval
+            for _i in range(spec['n'] + 1):
+                n0 = len(captured)
+                addr.send_bundle(num(spec['lat']), ['/m', 1])
+                obs['tickers'][j].append([fr(main.current_tt._seconds), fr(clk_.beats), str(parse_packet(captured[n0])[1]) if MODE == 'rt' else None])
+                yield num(spec['delta'])
+            tdone['n'] += 1
+        return tbody
+    if pr.get('tickers'):
+        with lock:
+            for j, spec in enumerate(pr['tickers']):
+                tc = SystemClock if spec['clock'] == 'S' else clocks[spec['clock'][1]]
+                Routine(ticker(j, spec)).play(tc, 0)
+
     def inner_body():
         for step in pr['steps']:
+            if MODE == 'rt' and pr.get('slow_ms'):
+                t_end = time.time() + pr['slow_ms'] / 1000.0     # a slow step: the main thread stays INSIDE next() for a while
+                while time.time() < t_end:
+                    pass
             rec = {'T': fr(main.current_tt._m_seconds), 'sends': []}
             for lat, es in step:
                 one_send(lat, es, rec)
@@ -1095,6 +1119,11 @@ def run_nextdrive(pr):
                     yield 1
             r = Routine(mid_body)
         drive(r, None)
+        if pr.get('tickers'):
+            deadline = time.time() + 6.0
+            while time.time() < deadline and tdone['n'] < len(pr['tickers']):
+                time.sleep(0.01)
+            obs['tickers_done'] = tdone['n'] >= len(pr['tickers'])
         obs['done'] = True
     else:
         clock = SystemClock if host == 'S' else AppClock if host == 'A' else clocks[host[1]]
